@@ -20,26 +20,28 @@
 (* TLC checks HistoryIndependent for "per_read", refutes "accumulating",   *)
 (* and emits every history for replay against fresh interpreters.          *)
 (***************************************************************************)
-EXTENDS Naturals, Sequences, FiniteSets, TLC, VerifIO
+EXTENDS Naturals, Sequences, FiniteSets, TLC, VerifIO, Json, IOUtils
 
 CONSTANTS Variant, MaxLen, EmitMode
 
 Classes == {"base", "cpp", "py"}
 Files == {"fA", "fB", "fC", "fD"}
+\* (the resonance content of the four files of harness/c20.py)
 FileOf(f) == CASE f = "fA" -> [res |-> {"r1", "r2"}, cart |-> "absent"]
                [] f = "fB" -> [res |-> {"r2", "r3"}, cart |-> "1"]
-               [] f = "fC" -> [res |-> {"r4"}, cart |-> "0"]
-               [] f = "fD" -> [res |-> {"r1", "r3", "r5"}, cart |-> "absent"]
+               [] f = "fC" -> [res |-> {"r4", "r6", "r7"}, cart |-> "0"]
+               [] f = "fD" -> [res |-> {"r1", "r3", "r5", "r8"}, cart |-> "absent"]
 
 VARIABLES allP,    \* the shared set
           cart,    \* cls -> "unset" | "F" | "T"   ("unset": look at the base class)
-          hist
-vars == <<allP, cart, hist>>
+          hist,
+          tid, l   \* trace validation only
+vars == <<allP, cart, hist, tid, l>>
 AbsView == <<allP, cart>>
 
 Lookup(c, cls) == IF c[cls] # "unset" THEN c[cls] ELSE IF c["base"] # "unset" THEN c["base"] ELSE "F"
 
-Init == allP = {} /\ cart = [c \in Classes |-> IF c = "base" THEN "F" ELSE "unset"] /\ hist = <<>>
+Init == allP = {} /\ cart = [c \in Classes |-> IF c = "base" THEN "F" ELSE "unset"] /\ hist = <<>> /\ tid = 0 /\ l = 1
 
 \* what the call returns when made in state (a, c), and the state it leaves
 After(a, c, cls, f) ==
@@ -57,11 +59,35 @@ Call(cls, f) ==
     /\ cart' = r.cart
     /\ hist' = Append(hist, [cls |-> cls, f |-> f, result |-> r.result])
 
-Next ==
+GenNext ==
     /\ Len(hist) < MaxLen
     /\ \E cls \in Classes, f \in Files : Call(cls, f)
+    /\ UNCHANGED <<tid, l>>
     /\ CASE EmitMode = "paths" -> (IF Len(hist') < MaxLen THEN TRUE ELSE Emit("hist", hist'))
          [] OTHER -> TRUE
+
+\* trace validation: a recorded history is a sequence of events [cls, f, declared, coupling]
+\* (declared: the resonance variables the output declares, as a sequence of abstract names, or
+\*  <<"n/a">> for a plain read; coupling: "T" | "F" as the harness reads it off the numbers)
+Traces == IF EmitMode = "trace" THEN JsonDeserialize(IOEnv.TRACE_FILE) ELSE <<>>
+TraceNext ==
+    \/ /\ tid = 0 /\ tid' \in 1..Len(Traces) /\ UNCHANGED <<allP, cart, hist, l>>
+    \/ /\ tid > 0 /\ l <= Len(Traces[tid])
+       /\ LET ev == Traces[tid][l] IN
+          /\ Call(ev.cls, ev.f)
+          /\ UNCHANGED tid
+          /\ LET want == hist'[Len(hist')].result
+                 ok == AllOf(<<
+                    ChkD(tid, "C20:declared-resonance-variables-are-those-of-the-file-read",
+                         ev.declared = <<"n/a">> \/ {ev.declared[i] : i \in DOMAIN ev.declared} = want.declared,
+                         [step |-> l, call |-> <<ev.cls, ev.f>>, exp |-> want.declared, obs |-> ev.declared]),
+                    ChkD(tid, "C20:couplings-read-as-the-files-own-option-says",
+                         ev.coupling = "n/a" \/ ev.coupling = want.coupling,
+                         [step |-> l, call |-> <<ev.cls, ev.f>>, exp |-> want.coupling, obs |-> ev.coupling]) >>)
+             IN IF ok THEN l' = l + 1 /\ (IF l + 1 <= Len(Traces[tid]) THEN TRUE ELSE Verdict(tid, TRUE))
+                ELSE l' = Len(Traces[tid]) + 2 /\ Verdict(tid, FALSE)
+
+Next == IF EmitMode = "trace" THEN TraceNext ELSE GenNext
 
 InitA == {}
 InitC == [c \in Classes |-> IF c = "base" THEN "F" ELSE "unset"]
